@@ -457,6 +457,20 @@ def r07e(rep, prog):
                                 ok = True
                                 rep.ok('R07e', d, fn, what, 'range bound is %s.size()' % cont.text(20))
                                 continue
+                            # a local vector constructed with exactly the range bound as its size and never resized
+                            if cv is not None and prog.vars[cv].get('kind') == 'local':
+                                decl = [x for x in fn.walk() if x.k == 'VarDecl' and x.decl_id == cv]
+                                sized = decl and decl[0].c and decl[0].c[0].strip().k in ex.CTOR_KINDS and decl[0].c[0].strip().c and \
+                                    ex.key(decl[0].c[0].strip().c[0]) == hk and not ex.vars_in(hi) & set(
+                                        x_ for x_ in ex.vars_in(hi) if [a_ for (a_, _r) in ex.assignments_to(fn, x_) if a_.k != 'VarDecl'])
+                                shrink = [x for x in fn.walk() if x.k == 'CXXMemberCallExpr' and x.callee and x.callee['name'] in (
+                                    'resize', 'clear', 'pop_back', 'erase', 'assign', 'swap', 'shrink_to_fit') and ex.var_of(x.object_arg()) == cv]
+                                grow_src = [x for x in fn.walk() if x.k == 'CXXMemberCallExpr' and x.callee and x.callee['name'] in (
+                                    'push_back', 'emplace_back', 'insert', 'erase', 'clear', 'pop_back', 'resize') and x.object_arg() is not None and
+                                    hk[0] == 'call' and len(hk) >= 3 and ex.key(x.object_arg()) == hk[2]]
+                                if sized and not shrink and not grow_src:
+                                    rep.ok('R07e', d, fn, what, '%s is constructed with size `%s`, the range bound, and never resized' % (cont.text(20), hi.text(30)))
+                                    continue
                             verdict, detail = container_filled_fully(prog, fn, cont, hi)
                             if verdict == 'ok':
                                 rep.ok('R07e', d, fn, what, detail)
